@@ -29,8 +29,8 @@ NSHARDS = 16
 
 
 def plan(tier, seed):
-    n = 2000 if tier == "quick" else 100000
-    k = 6 if tier == "quick" else 208
+    n = 6000 if tier == "quick" else 500000
+    k = 8 if tier == "quick" else 416
     specs = [{"kind": "tapped", "start": p * (n // NSHARDS), "count": n // NSHARDS} for p in range(NSHARDS)]
     per = max(1, k // NSHARDS)
     specs += [{"kind": "statistical", "start": p * per, "count": per} for p in range(min(NSHARDS, k))]
